@@ -312,6 +312,17 @@ class Walker:
         value = getattr(s, 'value', None)
         if value is None:
             return None
+        if self.const_heap and getattr(s, '_heap_expanded', 0) < 8:
+            # a compile-time constant that is itself a conditional (self.kept = n if flag else 0)
+            # is read as that conditional, so that its test becomes a path guard too
+            hits = [n for n in _unconditional_nodes(value) if isinstance(n, ast.Attribute) and isinstance(n.ctx, ast.Load) and isinstance(n.value, ast.Name)
+                    and ('%s.%s' % (n.value.id, n.attr)) in self.const_heap
+                    and any(isinstance(x, ast.IfExp) for x in ast.walk(self.const_heap['%s.%s' % (n.value.id, n.attr)]))]
+            if hits:
+                n = hits[0]
+                s2 = _copy_replacing(s, n, copy.deepcopy(self.const_heap['%s.%s' % (n.value.id, n.attr)]))
+                s2._heap_expanded = getattr(s, '_heap_expanded', 0) + 1
+                return self.stmt(s2, st, depth)
         target = None
         for n in _unconditional_nodes(value):
             if isinstance(n, ast.IfExp) and _pure_test(n.test):
